@@ -154,6 +154,9 @@ def conclude(pid, tier, seed, summaries, known, wall, extra_results=()):
         print("HARNESS-ERROR:", e)
     for e in inconclusive[:20]:
         print("INCONCLUSIVE:", e)
+    degraded = sorted({"%s: %s" % (spec.name, n) for spec, summ in summaries for n in summ.notes if n.startswith("SAMPLED:")})
+    for d in degraded[:12]:
+        print("DEGRADED:", d, "-- outside the modelled fragment; the all-values claim is not made for the paths through it")
     write_evidence(pid, tier, seed, summaries, wall, violations_confirmed, errors, inconclusive, known_hit, extra_results)
     print("RESULT property=%s tier=%s exit=%d wall=%.1fs" % (pid, tier, code, wall))
     return code
@@ -205,10 +208,11 @@ def write_evidence(pid, tier, seed, summaries, wall, nviol, errors, inconclusive
         "harnesses": per,
         "known_findings_hit": sorted(known_hit.keys()),
         "harness_errors": errors[:10], "inconclusive": inconclusive[:10],
+        "sampled_call_sites": sorted({"%s: %s" % (spec.name, n) for spec, s in summaries for n in s.notes if n.startswith("SAMPLED:")}),
         "explanation": "states = symbolic paths explored (each path = one run of the real source under the meta-"
                        "interpreter with a solver-checked path condition); transitions = branch decisions; every "
                        "obligation is a solver query path_condition AND NOT(property) that must be unsat",
-        "exhaustive": not inconclusive and not errors,
+        "exhaustive": not inconclusive and not errors and not any(n.startswith("SAMPLED:") for _, s in summaries for n in s.notes),
     }
     for er in extra_results:
         for k, v in er.get("coverage", {}).items():
